@@ -247,7 +247,7 @@ def he_write(c, a):
     d = bytes(a["data"])
     b = CBuf(len(d))
     ctypes.memmove(b.p, d, len(d))
-    r = c.L.Hwrite(aid, len(d), ctypes.cast(b.p, ctypes.c_char_p))
+    r = c.L.Hwrite(aid, len(d), ctypes.c_void_p(b.p))
     b.free()
     return he_rep(c, aid, r)
 
@@ -267,7 +267,7 @@ def he_read(c, a):
     # the caller's buffer is exactly as large as the API contract requires: n bytes, or "to the end"
     need = n if n > 0 else max(ln - pos, 0)
     b = CBuf(need)
-    r = c.L.Hread(aid, n, ctypes.cast(b.p, ctypes.c_char_p))
+    r = c.L.Hread(aid, n, ctypes.c_void_p(b.p))
     data = list(b.bytes(min(r, need))) if r > 0 else []
     b.free()
     o = he_rep(c, aid, r)
@@ -309,7 +309,7 @@ def he_bump(c, a):
 def he_get(c, a):
     ln = c.L.Hlength(c.h["F"], ETAG, a["key"])
     b = CBuf(max(ln, 0))
-    r = c.L.Hgetelement(c.h["F"], ETAG, a["key"], ctypes.cast(b.p, ctypes.c_char_p))
+    r = c.L.Hgetelement(c.h["F"], ETAG, a["key"], ctypes.c_void_p(b.p))
     data = list(b.bytes(min(r, max(ln, 0)))) if r > 0 else []
     b.free()
     return {"ret": r, "data": data}
@@ -341,6 +341,6 @@ def he_readpast(c, a):
     aid = c.h[a["aid"]]
     n = a["n"]
     b = CBuf(max(n, 1))
-    r = c.L.Hread(aid, n, ctypes.cast(b.p, ctypes.c_char_p))
+    r = c.L.Hread(aid, n, ctypes.c_void_p(b.p))
     b.free()
     return {"ret": r, "posn": c.L.Htell(aid)}
